@@ -350,3 +350,67 @@ Section Points.
   Definition delay_reply (b : bundle) (base : reply) : reply :=
     if delay_rejects b then RBlocked else base.
 End Points.
+
+(** ** one process, many checks
+
+    The blacklist code keeps exactly one piece of state between calls: the
+    parsed set (package variable blockedAccountSet), written only when a list
+    is loaded (types.Init / SetBlockedAccountsForTest -> parseBlockedAccounts;
+    a list that does not parse panics before the assignment, the old set
+    stays).  None of the enforcement functions writes anything that a later
+    check reads.  A process history is a sequence of loads and of submissions
+    asked at the enforcement points. *)
+Record answers := mkAns {
+  a_tx : list bool;                  (* CheckTxBlockedAccount per member *)
+  a_imm : list bool;                 (* CheckTxBlockedAccountImmediate per member *)
+  a_txs : bool;                      (* CheckTxsBlockedAccount *)
+  a_txsimm : bool;                   (* CheckTxsBlockedAccountImmediate *)
+  a_exec : list N -> list N;         (* receipts, from the receipts without a blacklist *)
+  a_prod : bool;                     (* AddTxsToBlock drops the entry *)
+  a_pool : reply -> reply;           (* EventTx reply, from the reply without a blacklist *)
+  a_delay : reply -> reply           (* EventAddDelayTx reply, likewise *)
+}.
+
+Inductive pop :=
+| OLoad (L : list str)
+| OAsk (e : env) (b : bundle).
+
+Section Process.
+  Variable cks : bytes -> bytes.
+
+  (* the pure answer: transaction facts, blocked set, fork configuration and height *)
+  Definition answer (set : list bytes) (e : env) (b : bundle) : answers :=
+    mkAns (map (chk_tx cks set (e_H e) (e_h e)) (members b))
+          (map (chk_imm cks set) (members b))
+          (chk_txs cks set (e_H e) (e_h e) (members b))
+          (chk_txs_imm cks set (members b))
+          (exec_receipts cks set e b)
+          (prod_rejects cks set e b)
+          (pool_reply cks set b)
+          (delay_reply cks set b).
+
+  Definition p_load (st : list bytes) (L : list str) : list bytes :=
+    match parse_list cks L with Some s => s | None => st end.
+
+  Definition p_step (st : list bytes) (o : pop) : list bytes * option answers :=
+    match o with
+    | OLoad L => (p_load st L, None)
+    | OAsk e b => (st, Some (answer st e b))
+    end.
+
+  (* the outputs of a history, one per operation (None for a load) *)
+  Fixpoint p_run (st : list bytes) (ops : list pop) : list (option answers) :=
+    match ops with
+    | [] => []
+    | o :: tl => let r := p_step st o in snd r :: p_run (fst r) tl
+    end.
+
+  (* the lists loaded by a history, in order; the set they leave behind *)
+  Fixpoint loads_of (ops : list pop) : list (list str) :=
+    match ops with
+    | [] => []
+    | OLoad L :: tl => L :: loads_of tl
+    | OAsk _ _ :: tl => loads_of tl
+    end.
+  Definition set_after (st : list bytes) (Ls : list (list str)) : list bytes := fold_left p_load Ls st.
+End Process.
